@@ -273,7 +273,8 @@ def run_harness(h, scratch, tier):
                     "wall_s": 0.0, "parsed": None, "log": None}
     else:
         cwd = REPO
-    timeout = float(h["timeout"]) * TIMEOUT_SCALE
+    # (registered timeouts were measured on an idle machine; never go below 15 minutes)
+    timeout = max(900.0, float(h["timeout"])) * TIMEOUT_SCALE
     rc, secs = run_limited(kani_cmd(h, tdir), cwd, env, timeout, float(h["mem"]), log)
     text = open(log, errors="replace").read()
     if "invalid loop identifier" in text and h.get("cbmc"):
